@@ -86,11 +86,13 @@ def _gen(ctx):
                  ('u32be', 3, 2, 10, '{}', 2, [3])]
     else:
         plans = [('varint', 2, 3, 100, '{}', 3, [2, 8, 2048]),
-                 ('varint', 3, 3, 12, '{}', 3, [3, 8, 2048]),
-                 ('varint', 3, 2, 15, VRAW, 3, [3, 2048]),
-                 ('u32be', 2, 2, 100, URAW, 3, [2, 2048]),
-                 ('u32be', 3, 2, 13, URAW, 3, [3, 8]),
-                 ('u32be', 2, 3, 15, '{}', 2, [2, 2048])]
+                 ('varint', 3, 3, 11, '{}', 3, [3, 2048]),
+                 ('varint', 3, 2, 12, VRAW, 3, [3, 2048]),
+                 ('u32be', 2, 2, 100, URAW, 3, [2]),
+                 ('u32be', 3, 2, 11, URAW, 3, [3]),
+                 ('u32be', 2, 3, 13, '{}', 2, [2])]
+    CAP = 100000 if quick else 8000     # per plan; beyond it a seeded sample is replayed (recorded below)
+
     def bfs(plan):
         (v, L, mm, mn, raw, k, reals) = plan
         name = "gen_%s_L%d_m%d_%d" % (v, L, mm, mn)
@@ -105,7 +107,7 @@ def _gen(ctx):
     # random walks over larger inputs (3 messages, whole catalogue), replayed with scaled
     # limits, and once more with seeded chunkings of the real stream
     sims = [('varint', 3, 700), ('u32be', 2, 500)] if quick else \
-           [('varint', 2, 6000), ('varint', 3, 6000), ('u32be', 2, 5000), ('u32be', 3, 5000)]
+           [('varint', 2, 1200), ('varint', 3, 1200), ('u32be', 2, 1000), ('u32be', 3, 1000)]
 
     def sim(plan):
         (v, L, num) = plan
@@ -122,7 +124,8 @@ def _gen(ctx):
     res = _par([lambda p=p: bfs(p) for p in plans] + [lambda p=p: sim(p) for p in sims])
     ex = {}
     for plan, (name, pr) in zip(plans, res[:len(plans)]):
-        ex[name] = len(add(pr, plan[1], plan[0], plan[6]))
+        n = len(add(pr, plan[1], plan[0], plan[6], limit=CAP))
+        ex[name] = {"enumerated": len(pr), "replayed": n, "exhaustive": n == len(pr)}
     ctx.extra["exhaustive_plans"] = ex
     for (v, L, num), pr in zip(sims, res[len(plans):]):
         add(pr, L, v, [L, 2048] if quick else [L, 8, 2048])
@@ -226,7 +229,7 @@ def run(ctx, replay=None):
     ctx.assumptions += [
         "messages are wrapperspb/anypb values of exact encoded sizes (size 1 does not exist in protobuf: abstract size 1 is mapped to 2)",
         "abstract streams are scaled to real limits by a piecewise monotone position map (exact when the real limit equals the abstract one)",
-        "buffer capacity is read by reflection over the reader's []byte fields that changed since construction; allocation per call from runtime/metrics with a 1 MiB noise allowance",
+        "buffer capacity is read by reflection over the reader's []byte fields that changed since construction; allocation per call from runtime/metrics, re-measured exactly (runtime.ReadMemStats, same input, fresh reader) when it looks larger than limit + 32 KiB; 64 KiB allowance",
         "a truncation right after a complete prefix is reported by the code as io.EOF: accepted as 'an error' (the property does not ask for a distinguishable one)",
         "TLC 1.8.0, Go toolchain, bufio.Reader default buffer size (4096) larger than every scaled chunk"]
     return ctx.finish(level="model_checking",
